@@ -478,9 +478,16 @@ func c17Gen(r *gen.Rand) *c17Spec {
 			`1, error("c17rt"), 2`,
 			`tojson | error("c17rt " + .)`,
 		})
-		if r.Chance(1, 12) {
+		if r.Chance(1, 6) {
 			// jq: a non-string error value is reported ("(not a string)") and the next input is processed
 			s.prog, s.progKind = `if (tojson | test("c17boom")) then error({c17rt: 1}) else . end`, "rtfail-object"
+			// error values that are falsy: the failure must still be remembered (exit 5)
+			switch r.Intn(3) {
+			case 0:
+				s.prog = `if (tojson | test("c17boom")) then error(null) else . end`
+			case 1:
+				s.prog = `if (tojson | test("c17boom")) then error(false) else . end`
+			}
 		}
 	default:
 		s.prog, s.progKind = gen.Pick(r, c17OkProgs), "ok"
